@@ -1085,10 +1085,44 @@ class Tensor:
 
         _uniques_bases_then_arrs = ()
 
-        tensor_vars = tuple(
-            cls(var, constant=True, copy=False) if not isinstance(var, Tensor) else var
-            for var in input_vars
-        )
+        if NP_IS_V2 and any(type(var) in (bool, int, float) for var in input_vars):
+            # Python scalars are "weakly" typed in NumPy 2 (NEP 50): they must not
+            # promote the dtype of the array/tensor operands they are combined with
+            _dtypes = [
+                (
+                    var.dtype
+                    if isinstance(var, (Tensor, np.ndarray, np.generic))
+                    else np.asarray(var).dtype
+                )
+                for var in input_vars
+                if type(var) not in (bool, int, float)
+            ]
+            tensor_vars = tuple(
+                (
+                    cls(
+                        var,
+                        dtype=(
+                            np.result_type(*_dtypes, var)
+                            if _dtypes and type(var) in (bool, int, float)
+                            else None
+                        ),
+                        constant=True,
+                        copy=False,
+                    )
+                    if not isinstance(var, Tensor)
+                    else var
+                )
+                for var in input_vars
+            )
+        else:
+            tensor_vars = tuple(
+                (
+                    cls(var, constant=True, copy=False)
+                    if not isinstance(var, Tensor)
+                    else var
+                )
+                for var in input_vars
+            )
 
         # cast all input-vars to tensors
         if _track.TRACK_GRAPH and _mem.MEM_GUARD:
